@@ -236,10 +236,12 @@ def path_to(nodes, nid):
 # ---------------------------------------------------------------- findings, verdict, evidence
 
 def known_findings():
-    p = os.path.join(ROOT, "known_findings.json")
-    if not os.path.exists(p):
-        return []
-    return json.load(open(p)).get("findings", [])
+    """All committed known_findings*.json files under /verif (never written at run time)."""
+    import glob
+    out = []
+    for p in sorted(glob.glob(os.path.join(ROOT, "known_findings*.json"))):
+        out.extend(json.load(open(p)).get("findings", []))
+    return out
 
 
 def match_known(prop, clause, pattern):
